@@ -4,17 +4,24 @@
 // C15: HALF_TONE is ln(2)/12; C07: the pitch clamp is [ln 20, ln 20000] (20 Hz .. 20 kHz); C05 / C11: the no-data
 // marker is -1e10.  ln(10) and ln(2) are core's correctly rounded constants; ln 20 and ln 20000 are compared with
 // ln 10 + ln 2 and 4 ln 10 + ln 2 to within 2 ulp of the sum.
-//@harness name=constants_are_the_documented_values tier=quick label=proved props=C16,C15,C07,C11 timeout=600
+// One harness per constant, so that a changed constant is reported under the property that names it only.
+//@harness name=db_is_ln10_over_20 tier=quick label=proved props=C16 timeout=600
+//@harness name=half_tone_is_ln2_over_12 tier=quick label=proved props=C15 timeout=600
+//@harness name=lf0_limits_are_20hz_and_20khz tier=quick label=proved props=C07 timeout=600
+//@harness name=nodata_marker_is_minus_1e10 tier=quick label=proved props=C11,C05 timeout=600
 use super::*;
+use std::f64::consts::{LN_10, LN_2};
 
+// the literals in the source are decimal renderings: within 2 ulp of the quotient, not bit-equal to it
 #[kani::proof]
-fn constants_are_the_documented_values() {
-    use std::f64::consts::{LN_10, LN_2};
-    // the literals in the source are decimal renderings: within 2 ulp of the quotient, not bit-equal to it
-    assert!((DB - LN_10 / 20.0).abs() <= 3.0e-17);
-    assert!((HALF_TONE - LN_2 / 12.0).abs() <= 1.5e-17);
+fn db_is_ln10_over_20() { assert!((DB - LN_10 / 20.0).abs() <= 3.0e-17); kani::cover!(true); }
+#[kani::proof]
+fn half_tone_is_ln2_over_12() { assert!((HALF_TONE - LN_2 / 12.0).abs() <= 1.5e-17); kani::cover!(true); }
+#[kani::proof]
+fn lf0_limits_are_20hz_and_20khz() {
     assert!((MIN_LF0 - (LN_10 + LN_2)).abs() <= 1.0e-15);
     assert!((MAX_LF0 - (4.0 * LN_10 + LN_2)).abs() <= 4.0e-15);
-    assert!(NODATA == -1.0e10);
     kani::cover!(true);
 }
+#[kani::proof]
+fn nodata_marker_is_minus_1e10() { assert!(NODATA == -1.0e10); kani::cover!(true); }
